@@ -1,2 +1,4 @@
 import LzProofs.FactsProps
 import LzProofs.ConfigProps
+import LzProofs.SuffixProps
+import LzProofs.DecBufProps
